@@ -921,3 +921,421 @@ Proof.
   pose proof (ri_lo _ I Hs) as L. pose proof (ri_hi _ I) as H. rewrite Hp in *.
   rewrite skipn_all in L. rewrite firstn_all in H. cbn in L. lia.
 Qed.
+
+(* ------------------------------------------------------------------------------- for_each_alive, exactness *)
+Definition expand (rs : list (nat * nat)) : list nat := flat_map (fun r => seq (fst r) (snd r - fst r)) rs.
+Fixpoint fpos (l : list bool) (pos : nat) : list nat :=
+  match l with
+  | [] => []
+  | b :: r => (if b then [pos] else []) ++ fpos r (S pos)
+  end.
+
+Lemma seq_snoc : forall b n, seq b (S n) = seq b n ++ [b + n].
+Proof. intros. rewrite seq_S. reflexivity. Qed.
+
+Lemma runs_expand : forall l pos cur, (forall b, cur = Some b -> b <= pos) ->
+  expand (runs_from l pos cur) = (match cur with Some b => seq b (pos - b) | None => [] end) ++ fpos l pos.
+Proof.
+  induction l as [|a l IH]; intros pos cur Hc; cbn [runs_from fpos].
+  - destruct cur as [b|]; cbn; rewrite ?app_nil_r; reflexivity.
+  - destruct a.
+    + destruct cur as [b|].
+      * rewrite IH by (intros b' E; inversion E; subst; specialize (Hc _ eq_refl); lia).
+        specialize (Hc _ eq_refl). replace (S pos - b) with (S (pos - b)) by lia. rewrite seq_snoc.
+        replace (b + (pos - b)) with pos by lia. rewrite <- app_assoc. reflexivity.
+      * rewrite IH by (intros b' E; inversion E; subst; lia).
+        replace (S pos - pos) with 1 by lia. reflexivity.
+    + destruct cur as [b|].
+      * cbn [expand flat_map fst snd]. fold (expand (runs_from l (S pos) None)). rewrite IH by discriminate. reflexivity.
+      * rewrite IH by discriminate. reflexivity.
+Qed.
+
+Lemma runs_wf : forall l pos cur, (forall b, cur = Some b -> b <= pos) ->
+  Forall (fun r => fst r <= snd r) (runs_from l pos cur).
+Proof.
+  induction l as [|a l IH]; intros pos cur Hc; cbn [runs_from].
+  - destruct cur as [b|]; constructor; [cbn; auto|constructor].
+  - destruct a.
+    + apply IH. destruct cur as [b|]; intros b' E; inversion E; subst; [specialize (Hc _ eq_refl); lia|lia].
+    + destruct cur as [b|]; [constructor; [cbn; auto|]|]; apply IH; discriminate.
+Qed.
+
+Lemma filter_lt_seq : forall sz n b,
+  filter (fun k => k <? sz) (seq b n) = seq (Nat.min b sz) (Nat.min (b + n) sz - Nat.min b sz).
+Proof.
+  intros sz n. induction n as [|n IH]; intros b.
+  - rewrite Nat.add_0_r, Nat.sub_diag. reflexivity.
+  - cbn [seq filter]. rewrite IH. destruct (Nat.ltb_spec b sz).
+    + replace (Nat.min (b + S n) sz - Nat.min b sz) with (S (Nat.min (S b + n) sz - Nat.min (S b) sz)) by lia.
+      cbn [seq]. f_equal; [lia|]. f_equal. lia.
+    + replace (Nat.min (S b + n) sz - Nat.min (S b) sz) with 0 by lia.
+      replace (Nat.min (b + S n) sz - Nat.min b sz) with 0 by lia. reflexivity.
+Qed.
+
+Lemma alive_lines_eq : forall cst sz rs, Forall (fun r => fst r <= snd r) rs ->
+  alive_lines cst sz rs = Some (filter (fun k => k <? sz) (expand rs)).
+Proof.
+  intros cst sz rs H. induction H as [|r rs Hr _ IH]; [reflexivity|].
+  cbn [alive_lines]. rewrite alive_range_clamped, IH. cbn [expand flat_map]. fold (expand rs).
+  rewrite filter_app. f_equal. f_equal.
+  replace (snd r - fst r) with (snd r - fst r) by reflexivity.
+  rewrite (filter_lt_seq sz (snd r - fst r) (fst r)).
+  replace (fst r + (snd r - fst r)) with (snd r) by lia.
+  f_equal; lia.
+Qed.
+
+Lemma fpos_map : forall (f : nat -> bool) n p, fpos (map f (seq p n)) p = filter f (seq p n).
+Proof.
+  intros f n. induction n as [|n IH]; intros p; [reflexivity|].
+  cbn [seq map fpos filter]. rewrite IH. destruct (f p); reflexivity.
+Qed.
+
+Definition allocated (a : ids) (k : nat) : bool := negb (existsb (Nat.eqb k) (fre a)).
+
+(* for_each_alive (either overload) visits, in increasing order, exactly the lines k < size of the storage whose
+   thread id k is currently allocated (handed out and not on the free list) *)
+Theorem ct_alive_exact : forall x cst s,
+  for_each_alive x cst s =
+  Some (filter (fun k => k <? csize x s) (filter (allocated (tids x)) (seq 0 (nxt (tids x))))).
+Proof.
+  intros x cst s. unfold for_each_alive, alive_runs.
+  rewrite alive_lines_eq by (apply runs_wf; discriminate).
+  rewrite runs_expand by discriminate. cbn [app]. unfold alive_ids. rewrite fpos_map. reflexivity.
+Qed.
+
+Lemma allocated_iff : forall a k, allocated a k = true <-> ~ In k (fre a).
+Proof.
+  intros a k. unfold allocated. rewrite negb_true_iff. split.
+  - intros H F. assert (existsb (Nat.eqb k) (fre a) = true) by (apply existsb_exists; exists k; split; [exact F|apply Nat.eqb_refl]). congruence.
+  - intros H. destruct (existsb (Nat.eqb k) (fre a)) eqn:E; [|reflexivity].
+    apply existsb_exists in E. destruct E as (y & Hy & Ey). apply Nat.eqb_eq in Ey. subst y. contradiction.
+Qed.
+
+(* ... and in every reachable state those are exactly the lines of the live threads this storage has room for,
+   each visited once *)
+Theorem ct_for_each_alive_exact : forall cf h cst s, cfg_ok cf ->
+  let x := run cf (start cf) h in
+  threads_small cf x ->
+  exists L, for_each_alive x cst s = Some L /\ NoDup L /\
+    forall k, In k L <-> (k < csize x s)%nat /\ exists t, t_alive (thr x t) = true /\ t_tid (thr x t) = Some k.
+Proof.
+  intros cf h cst s Hok x Hs. pose proof (reach_inv cf h Hok Hs) as I. fold x in I.
+  eexists. split; [apply ct_alive_exact|]. split.
+  - apply NoDup_filter, NoDup_filter, seq_NoDup.
+  - intros k. rewrite !filter_In, in_seq, allocated_iff, Nat.ltb_lt. split.
+    + intros [[[_ A] B] C]. split; [exact C|]. destruct (i_held _ _ I k ltac:(lia) B) as [t Et]. exists t.
+      destruct (i_tid _ _ I _ _ Et) as (_ & _ & D). auto.
+    + intros [C (t & _ & Et)]. destruct (i_tid _ _ I _ _ Et) as (A & B & _). repeat split; auto; lia.
+Qed.
+
+From Coq Require Import ZifyBool.
+(* ------------------------------------------------------------------------------------------ maxer / miner *)
+Definition cmp_kind (k : kind) : Prop := k = KMaxer \/ k = KMiner.
+
+Lemma cmp_irrefl : forall k v, cmp_of k v v = false.
+Proof. intros k v. unfold cmp_of, max_cmp, min_cmp. destruct k; lia. Qed.
+Lemma cmp_dom_trans : forall k w a m, cmp_of k w a = false -> cmp_of k a m = false -> cmp_of k w m = false.
+Proof. intros k w a m. unfold cmp_of, max_cmp, min_cmp. destruct k; lia. Qed.
+Lemma cmp_up : forall k v a w, cmp_of k v a = true -> cmp_of k w a = false -> cmp_of k w v = false.
+Proof. intros k v a w. unfold cmp_of, max_cmp, min_cmp. destruct k; lia. Qed.
+Lemma cmp_up2 : forall k a res r, cmp_of k a res = true -> cmp_of k a r = false -> cmp_of k res r = false.
+Proof. intros k a res r. unfold cmp_of, max_cmp, min_cmp. destruct k; lia. Qed.
+
+Lemma visit_eq : forall k ver acc c,
+  cmp_visit k ver acc c =
+  if Z.eqb (snd c) ver then (if negb (fst acc) || cmp_of k (fst c) (snd acc) then (true, fst c) else acc) else acc.
+Proof.
+  intros k ver acc c. unfold cmp_visit, read_version_match, read_accept, read_cmp_lhs, read_cmp_rhs, b2z.
+  destruct (Z.eqb (snd c) ver); [|reflexivity].
+  destruct (fst acc); destruct (cmp_of k (fst c) (snd acc)); reflexivity.
+Qed.
+
+Lemma fold_spec : forall k ver cells has res,
+  let r := fold_left (cmp_visit k ver) cells (has, res) in
+  (fst r = true <-> has = true \/ exists c, In c cells /\ snd c = ver) /\
+  (fst r = true -> (has = true /\ snd r = res) \/ exists c, In c cells /\ snd c = ver /\ snd r = fst c) /\
+  (has = true -> cmp_of k res (snd r) = false) /\
+  (forall c, In c cells -> snd c = ver -> cmp_of k (fst c) (snd r) = false).
+Proof.
+  intros k ver cells. induction cells as [|c cells IH]; intros has res; cbn [fold_left].
+  - cbn. repeat split.
+    + intros H; left; exact H.
+    + intros [H|(c & [] & _)]; exact H.
+    + intros H; left; split; [exact H|reflexivity].
+    + intros _. apply cmp_irrefl.
+    + intros c [].
+  - rewrite visit_eq. cbn [fst snd]. destruct (Z.eqb_spec (snd c) ver) as [Em|Em].
+    + destruct (negb has || cmp_of k (fst c) res) eqn:Ea.
+      * specialize (IH true (fst c)). cbv zeta in IH. destruct IH as (A & B & C & D).
+        assert (Ht : fst (fold_left (cmp_visit k ver) cells (true, fst c)) = true) by (apply A; left; reflexivity).
+        repeat split.
+        -- intros _. right. exists c. split; [left; reflexivity|exact Em].
+        -- intros _. exact Ht.
+        -- intros _. right. destruct (B Ht) as [[_ E]|(c' & I' & M' & E')].
+           ++ exists c. repeat split; auto. left; reflexivity.
+           ++ exists c'. repeat split; auto. right; exact I'.
+        -- intros Hh. subst has. cbn in Ea. eapply cmp_up2; [exact Ea|apply C; reflexivity].
+        -- intros c' [<-|I'] M'; [apply C; reflexivity|apply D; assumption].
+      * apply orb_false_iff in Ea. destruct Ea as [Eh Ec]. apply negb_false_iff in Eh. subst has.
+        specialize (IH true res). cbv zeta in IH. destruct IH as (A & B & C & D).
+        assert (Ht : fst (fold_left (cmp_visit k ver) cells (true, res)) = true) by (apply A; left; reflexivity).
+        repeat split.
+        -- intros _. left; reflexivity.
+        -- intros _. exact Ht.
+        -- intros _. destruct (B Ht) as [[_ E]|(c' & I' & M' & E')]; [left; split; auto|].
+           right. exists c'. repeat split; auto. right; exact I'.
+        -- intros _. apply C; reflexivity.
+        -- intros c' [<-|I'] M'; [|apply D; assumption]. eapply cmp_dom_trans; [exact Ec|apply C; reflexivity].
+    + specialize (IH has res). cbv zeta in IH. destruct IH as (A & B & C & D). repeat split.
+      * intros H. apply A in H. destruct H as [H|(c' & I' & M')]; [left; exact H|right; exists c'; split; [right; exact I'|exact M']].
+      * intros [H|(c' & [<-|I'] & M')]; apply A; [left; exact H|contradiction|right; exists c'; auto].
+      * intros H. destruct (B H) as [E|(c' & I' & M' & E')]; [left; exact E|right; exists c'; repeat split; auto; right; exact I'].
+      * exact C.
+      * intros c' [<-|I'] M'; [contradiction|apply D; assumption].
+Qed.
+
+Definition cellv (x : st) (i : inst) (j : nat) : cell := cmem x (i_sto i) j (i_off i).
+
+Record minv (cf : cfg) (n : Z) (x : st) : Prop := {
+  m_v1 : forall c i j, chnd x c = Some i -> snd (cellv x i j) = cver x c -> In (fst (cellv x i j)) (g_per x c);
+  m_v2 : forall c i v, chnd x c = Some i -> In v (g_per x c) ->
+         exists j, snd (cellv x i j) = cver x c /\ cmp_of (ck cf) v (fst (cellv x i j)) = false;
+  m_v3 : forall c i j, chnd x c = Some i ->
+         snd (cellv x i j) = slot_init_version \/ (snd (cellv x i j) <= cver x c)%Z;
+  m_v4 : forall c, (0 <= cver x c <= n)%Z
+}.
+
+Lemma g_init_ver : cmp_initial_version = 0%Z /\ (0 < slot_init_version)%Z.
+Proof. split; [reflexivity|vm_compute; reflexivity]. Qed.
+
+Lemma minv_init : forall cf, minv cf 0 (start cf).
+Proof. intros cf. constructor; cbn; intros; try discriminate. lia. Qed.
+
+Lemma minv_mono : forall cf n n' x, minv cf n x -> (n <= n')%Z -> minv cf n' x.
+Proof.
+  intros cf n n' x M H. constructor; [exact (m_v1 _ _ _ M)|exact (m_v2 _ _ _ M)|exact (m_v3 _ _ _ M)|].
+  intros c. pose proof (m_v4 _ _ _ M c). lia.
+Qed.
+
+Lemma minv_same : forall cf n x x1, minv cf n x ->
+  cmem x1 = cmem x -> chnd x1 = chnd x -> cver x1 = cver x -> g_per x1 = g_per x -> minv cf n x1.
+Proof.
+  intros cf n x x1 M E1 E2 E3 E4. unfold cellv in *.
+  constructor; unfold cellv; rewrite ?E1, ?E2, ?E3, ?E4; [exact (m_v1 _ _ _ M)|exact (m_v2 _ _ _ M)|exact (m_v3 _ _ _ M)|exact (m_v4 _ _ _ M)].
+Qed.
+
+Lemma czero_cmp : forall k, cmp_kind k -> czero k = (0%Z, slot_init_version).
+Proof. intros k [->| ->]; reflexivity. Qed.
+
+Lemma minv_new : forall cf n x c, (1 <= cK cf)%nat -> (1 <= cB cf)%nat -> cmp_kind (ck cf) ->
+  inv cf x -> minv cf n x -> chnd x c = None -> minv cf n (fst (new_inst cf x c)).
+Proof.
+  intros cf n x c HK HB Hk I M Hc. unfold new_inst. destruct (id_alloc (iids x)) as [iid a'] eqn:Ea. cbn [fst].
+  destruct (alloc_spec cf HK HB _ _ _ (i_ifre _ _ I) (i_ifre_nd _ _ I) Ea) as (A1 & A2 & A3 & A4 & A5 & A6 & A7).
+  assert (Hfresh : In iid (fre (iids x)) \/ (nxt (iids x) <= iid)%nat) by (destruct A7 as [[? _]|[? _]]; [left; auto|right; lia]).
+  assert (Hz : forall j, cmem x (sto_of cf iid) j (off_of cf iid) = (0%Z, slot_init_version)).
+  { intros j. rewrite (i_freez _ _ I _ Hfresh). apply czero_cmp. exact Hk. }
+  destruct g_init_ver as [G1 G2].
+  constructor; unfold cellv; cbn.
+  - intros d i j. unfold upd. destruct (Nat.eqb_spec d c).
+    + intros E; inversion E; subst i; cbn. unfold sto_of, off_of in Hz. rewrite Hz. cbn. rewrite G1. lia.
+    + apply (m_v1 _ _ _ M).
+  - intros d i v. unfold upd. destruct (Nat.eqb_spec d c); [intros _ []|apply (m_v2 _ _ _ M)].
+  - intros d i j. unfold upd. destruct (Nat.eqb_spec d c).
+    + intros E; inversion E; subst i; cbn. unfold sto_of, off_of in Hz. rewrite Hz. left. reflexivity.
+    + apply (m_v3 _ _ _ M).
+  - intros d. unfold upd. destruct (Nat.eqb_spec d c); [|apply (m_v4 _ _ _ M)]. pose proof (m_v4 _ _ _ M c). rewrite G1. lia.
+Qed.
+
+Lemma slots_differ : forall cf x c d i j, (1 <= cK cf)%nat -> (1 <= cB cf)%nat -> inv cf x ->
+  chnd x c = Some i -> chnd x d = Some j -> d <> c -> i_sto j <> i_sto i \/ i_off j <> i_off i.
+Proof.
+  intros cf x c d i j HK HB I Hc Hd Hne.
+  destruct (Nat.eq_dec (i_sto j) (i_sto i)); [|left; assumption].
+  destruct (Nat.eq_dec (i_off j) (i_off i)); [|right; assumption].
+  exfalso. apply Hne. eapply (inst_slot_inj cf HK HB); eauto.
+Qed.
+
+Lemma minv_del : forall cf n x c i, (1 <= cK cf)%nat -> (1 <= cB cf)%nat -> inv cf x -> minv cf n x -> chnd x c = Some i ->
+  minv cf n (let x1 := set_cmem x (fill (cmem x) (i_sto i) (each_bound x (i_sto i)) (Z.to_nat (dtor_zero_index (Z.of_nat (i_off i)))) (czero (ck cf))) in
+             set_chnd (set_iids x1 (id_free (iids x1) (i_iid i))) (upd (chnd x1) c None)).
+Proof.
+  intros cf n x c i HK HB I M Hc. rewrite g_dtor, Nat2Z.id. cbn.
+  assert (Hsame : forall d j jj, chnd x d = Some j -> d <> c ->
+            fill (cmem x) (i_sto i) (each_bound x (i_sto i)) (i_off i) (czero (ck cf)) (i_sto j) jj (i_off j) = cmem x (i_sto j) jj (i_off j)).
+  { intros d j jj Hd Hne. apply fill_other. eapply slots_differ; eauto. }
+  constructor; unfold cellv; cbn.
+  - intros d j jj. unfold upd. destruct (Nat.eqb_spec d c); [discriminate|]. intros E. rewrite (Hsame d j jj E n0). apply (m_v1 _ _ _ M _ _ _ E).
+  - intros d j v. unfold upd. destruct (Nat.eqb_spec d c); [discriminate|]. intros E Hv.
+    destruct (m_v2 _ _ _ M _ _ _ E Hv) as (jj & P & Q). exists jj. rewrite (Hsame d j jj E n0). split; assumption.
+  - intros d j jj. unfold upd. destruct (Nat.eqb_spec d c); [discriminate|]. intros E. rewrite (Hsame d j jj E n0). apply (m_v3 _ _ _ M _ _ _ E).
+  - exact (m_v4 _ _ _ M).
+Qed.
+
+Lemma minv_swap : forall cf n x c d, minv cf n x -> minv cf n (swap_inst x c d).
+Proof.
+  intros cf n x c d M. unfold swap_inst. constructor; unfold cellv; cbn.
+  - intros e i j. rewrite !upd_pi. apply (m_v1 _ _ _ M).
+  - intros e i v. rewrite !upd_pi. apply (m_v2 _ _ _ M).
+  - intros e i j. rewrite !upd_pi. apply (m_v3 _ _ _ M).
+  - intros e. rewrite upd_pi. apply (m_v4 _ _ _ M).
+Qed.
+
+Lemma cell_add_cases : forall k ver v a b, cmp_kind k ->
+  (b <> ver /\ cell_add k ver v (a, b) = (v, ver)) \/
+  (b = ver /\ cmp_of k v a = true /\ cell_add k ver v (a, b) = (v, b)) \/
+  (b = ver /\ cmp_of k v a = false /\ cell_add k ver v (a, b) = (a, b)).
+Proof.
+  intros k ver v a b Hk.
+  assert (E : cell_add k ver v (a, b) =
+              if negb (Z.eqb ver b) then (v, ver) else if cmp_of k v a then (v, b) else (a, b))
+    by (destruct Hk as [->| ->]; reflexivity).
+  rewrite E. destruct (Z.eqb_spec ver b) as [<-|Hne]; cbn [negb].
+  - destruct (cmp_of k v a); [right; left|right; right]; auto.
+  - left. split; [congruence|reflexivity].
+Qed.
+
+Lemma minv_write : forall cf n x c i k v, (1 <= cK cf)%nat -> (1 <= cB cf)%nat -> cmp_kind (ck cf) ->
+  inv cf x -> minv cf n x -> chnd x c = Some i ->
+  minv cf n (let old := cmem x (i_sto i) k (i_off i) in
+       let x2 := set_cmem x (upd3 (cmem x) (i_sto i) k (i_off i) (cell_add (ck cf) (cver x c) v old)) in
+       set_ghost x2 (upd (g_sum x2) c (g_sum x2 c + v)%Z) (upd (g_cnt x2) c (g_cnt x2 c + 1)%Z) (upd (g_per x2) c (v :: g_per x2 c))).
+Proof.
+  intros cf n x c i k v HK HB Hk I M Hc. cbn.
+  set (ver := cver x c).
+  destruct (cmem x (i_sto i) k (i_off i)) as [a b] eqn:Eold.
+  set (new := cell_add (ck cf) ver v (a, b)).
+  assert (Hoth : forall d j jj, chnd x d = Some j -> d <> c ->
+            upd3 (cmem x) (i_sto i) k (i_off i) new (i_sto j) jj (i_off j) = cmem x (i_sto j) jj (i_off j)).
+  { intros d j jj Hd Hne. apply upd3_other. destruct (slots_differ cf x c d i j HK HB I Hc Hd Hne); tauto. }
+  assert (Hk' : upd3 (cmem x) (i_sto i) k (i_off i) new (i_sto i) k (i_off i) = new)
+    by (unfold upd3; rewrite !Nat.eqb_refl; reflexivity).
+  assert (Hnk : forall jj, jj <> k -> upd3 (cmem x) (i_sto i) k (i_off i) new (i_sto i) jj (i_off i) = cmem x (i_sto i) jj (i_off i))
+    by (intros jj Hne; apply upd3_other; tauto).
+  pose proof (cell_add_cases (ck cf) ver v a b Hk) as Cases. fold new in Cases.
+  assert (V1old : b = ver -> In a (g_per x c)).
+  { intros E. pose proof (m_v1 _ _ _ M c i k Hc) as H. unfold cellv in H. rewrite Eold in H. apply H. exact E. }
+  constructor; unfold cellv; cbn.
+  - intros d j jj Hd. unfold upd. destruct (Nat.eqb_spec d c) as [->|Hne].
+    + rewrite Hc in Hd. inversion Hd; subst j. fold ver. destruct (Nat.eq_dec jj k) as [->|Hjk].
+      * rewrite Hk'. intros _. destruct Cases as [[_ ->]|[(_ & _ & ->)|(Eb & _ & ->)]]; cbn; auto.
+        all: try (right; apply V1old; exact Eb).
+      * rewrite Hnk by exact Hjk. intros E. right. apply (m_v1 _ _ _ M c i jj Hc E).
+    + rewrite (Hoth d j jj Hd Hne). apply (m_v1 _ _ _ M _ _ _ Hd).
+  - intros d j w Hd. unfold upd. destruct (Nat.eqb_spec d c) as [->|Hne].
+    + rewrite Hc in Hd. inversion Hd; subst j. fold ver. intros [<-|Hw].
+      * exists k. rewrite Hk'.
+        destruct Cases as [[_ ->]|[(Eb & _ & ->)|(Eb & Ec & ->)]]; cbn; auto using cmp_irrefl.
+      * destruct (m_v2 _ _ _ M c i w Hc Hw) as (jj & P & Q). unfold cellv in P, Q. fold ver in P.
+        destruct (Nat.eq_dec jj k) as [->|Hjk].
+        -- exists k. rewrite Hk'. rewrite Eold in P, Q. cbn in P, Q.
+           destruct Cases as [[Eb _]|[(Eb & Ec & ->)|(Eb & Ec & ->)]]; cbn; [contradiction| |auto].
+           split; [exact Eb|eapply cmp_up; eauto].
+        -- exists jj. rewrite Hnk by exact Hjk. auto.
+    + intros Hw. destruct (m_v2 _ _ _ M d j w Hd Hw) as (jj & P & Q). exists jj. rewrite (Hoth d j jj Hd Hne). auto.
+  - intros d j jj Hd. destruct (Nat.eq_dec d c) as [->|Hne].
+    + rewrite Hc in Hd. inversion Hd; subst j. fold ver. destruct (Nat.eq_dec jj k) as [->|Hjk].
+      * rewrite Hk'. destruct Cases as [[_ ->]|[(Eb & _ & ->)|(Eb & _ & ->)]]; cbn; right; lia.
+      * rewrite Hnk by exact Hjk. apply (m_v3 _ _ _ M c i jj Hc).
+    + rewrite (Hoth d j jj Hd Hne). apply (m_v3 _ _ _ M _ _ _ Hd).
+  - exact (m_v4 _ _ _ M).
+Qed.
+
+Lemma minv_reset : forall cf n x c i, minv cf n x -> (n + 1 < slot_init_version)%Z -> chnd x c = Some i ->
+  minv cf (n + 1) (let x1 := set_cver x (upd (cver x) c (cmp_reset_incr_target (cver x c) + 1)%Z) in
+                   set_ghost x1 (g_sum x1) (g_cnt x1) (upd (g_per x1) c [])).
+Proof.
+  intros cf n x c i M Hn Hc. unfold cmp_reset_incr_target. cbn.
+  pose proof (m_v4 _ _ _ M c) as V4.
+  constructor; unfold cellv; cbn.
+  - intros d j jj Hd. unfold upd. destruct (Nat.eqb_spec d c) as [->|Hne]; [|apply (m_v1 _ _ _ M _ _ _ Hd)].
+    intros E. exfalso. destruct (m_v3 _ _ _ M c j jj Hd) as [F|F]; unfold cellv in F; lia.
+  - intros d j w Hd. unfold upd. destruct (Nat.eqb_spec d c) as [->|Hne]; [intros []|apply (m_v2 _ _ _ M _ _ _ Hd)].
+  - intros d j jj Hd. unfold upd. destruct (Nat.eqb_spec d c) as [->|Hne]; [|apply (m_v3 _ _ _ M _ _ _ Hd)].
+    destruct (m_v3 _ _ _ M c j jj Hd) as [F|F]; unfold cellv in F; [left; exact F|right; lia].
+  - intros d. unfold upd. destruct (Nat.eqb_spec d c) as [->|Hne]; [lia|]. pose proof (m_v4 _ _ _ M d). lia.
+Qed.
+
+Lemma step_minv : forall cf n x o, (1 <= cK cf)%nat -> (1 <= cB cf)%nat -> cmp_kind (ck cf) ->
+  inv cf x -> minv cf n x -> (n + 1 < slot_init_version)%Z -> minv cf (n + 1) (fst (step cf x o)).
+Proof.
+  intros cf n x o HK HB Hk I M Hn.
+  assert (M' : minv cf (n + 1) x) by (eapply minv_mono; [exact M|lia]).
+  destruct o; cbn.
+  - destruct (t_alive (thr x t)); cbn; [exact M'|]. eapply minv_same; [exact M'|reflexivity..].
+  - destruct (t_alive (thr x t)); cbn; [|exact M']. destruct (t_tid (thr x t)); eapply minv_same; try exact M'; reflexivity.
+  - destruct (chnd x c) eqn:E; cbn; [exact M'|]. pose proof (minv_new cf (n + 1) x c HK HB Hk I M' E) as H.
+    destruct (new_inst cf x c); exact H.
+  - destruct (chnd x c) eqn:E; cbn; [|exact M']. apply minv_del; assumption.
+  - destruct (chnd x c); destruct (chnd x d); cbn; try exact M'. apply minv_swap; assumption.
+  - destruct (chnd x c) eqn:E; destruct (chnd x d); cbn; try exact M'.
+    pose proof (minv_new cf (n + 1) x c HK HB Hk I M' E) as H. destruct (new_inst cf x c); cbn in *. apply minv_swap; assumption.
+  - destruct (chnd x c) as [i|] eqn:E; cbn; [|exact M']. destruct (t_alive (thr x t)) eqn:Ea; cbn; [|exact M'].
+    destruct (local cf x t (i_sto i)) as [x1 [s k]] eqn:El.
+    destruct (local_spec cf HK HB _ _ _ _ _ _ I Ea El) as (I1 & -> & _ & K1 & K2 & (M1 & M2 & M3 & M4 & M5 & M6 & M7) & _).
+    cbn. rewrite <- M2 in E.
+    assert (Mx1 : minv cf (n + 1) x1) by (eapply minv_same; [exact M'|assumption..]).
+    apply (minv_write cf (n + 1) x1 c i k v HK HB Hk I1 Mx1 E).
+  - destruct (chnd x c); cbn; exact M'.
+  - destruct (chnd x c) as [i|] eqn:E; cbn; [|exact M'].
+    destruct Hk as [Hk|Hk]; rewrite Hk; cbn; apply (minv_reset cf n x c i M Hn E).
+  - destruct (chnd x c); cbn; exact M'.
+  - destruct (chnd x c); cbn; exact M'.
+Qed.
+
+Lemma run_minv : forall cf h x n, (1 <= cK cf)%nat -> (1 <= cB cf)%nat -> cmp_kind (ck cf) ->
+  inv cf x -> minv cf n x -> small cf (run cf x h) -> (n + Z.of_nat (length h) < slot_init_version)%Z ->
+  minv cf (n + Z.of_nat (length h)) (run cf x h).
+Proof.
+  intros cf h. induction h as [|o h IH]; intros x n HK HB Hk I M Hs Hn; cbn [run length] in *.
+  - replace (n + Z.of_nat 0)%Z with n by lia. exact M.
+  - replace (n + Z.of_nat (S (length h)))%Z with ((n + 1) + Z.of_nat (length h))%Z by lia.
+    apply IH; auto; try lia.
+    + apply step_inv; auto. eapply (small_mono cf HK HB); [apply (run_mono cf HK HB)|exact Hs].
+    + apply step_minv; auto. lia.
+Qed.
+
+Lemma read_cmp : forall cf x c i, cmp_kind (ck cf) ->
+  read cf x c i = (let r := cmp_fold (ck cf) (cver x c) (cells_of x i) in
+                   (if fst r then snd r else 0%Z, if fst r then 1%Z else 0%Z)).
+Proof. intros cf x c i [H|H]; unfold read; rewrite H; reflexivity. Qed.
+
+Definition is_extreme (k : kind) (m : Z) (l : list Z) : Prop := In m l /\ forall v, In v l -> cmp_of k v m = false.
+
+(* maxer / miner: value() at a quiescent point is the extreme of the samples of the current period (no sample is
+   strictly more extreme), for every sample value including numeric_limits min/max; an empty period reports none *)
+Theorem ct_extreme_exact : forall cf h c i, cfg_ok cf -> ck cf = KMaxer \/ ck cf = KMiner ->
+  let x := run cf (start cf) h in
+  threads_small cf x -> (Z.of_nat (length h) < slot_init_version)%Z -> chnd x c = Some i ->
+  (g_per x c = [] -> step cf x (CRead c) = (x, OVal 0%Z 0%Z)) /\
+  (g_per x c <> [] -> exists m, is_extreme (ck cf) m (g_per x c) /\ step cf x (CRead c) = (x, OVal m 1%Z)).
+Proof.
+  intros cf h c i [HK HB] Hk x Hs Hlen Hc.
+  pose proof (reach_inv cf h (conj HK HB) Hs) as I. fold x in I.
+  pose proof (run_minv cf h (start cf) 0%Z HK HB Hk (inv_init cf HK HB) (minv_init cf) Hs ltac:(lia)) as M. fold x in M.
+  cbn [step]. rewrite Hc. rewrite (read_cmp cf x c i Hk). cbv zeta. cbn [fst snd].
+  set (cs := cells_of x i). set (ver := cver x c).
+  pose proof (fold_spec (ck cf) ver cs false (extremum (ck cf))) as F. cbv zeta in F. fold (cmp_fold (ck cf) ver cs) in F.
+  destruct F as (FA & FB & _ & FD).
+  assert (Hin : forall j, snd (cellv x i j) = ver -> In (cellv x i j) cs).
+  { intros j E. unfold cs, cells_of. apply in_map_iff. exists j. split; [reflexivity|]. apply in_seq.
+    rewrite (each_bound_eq cf HK HB x (i_sto i) I Hs).
+    destruct (Nat.lt_ge_cases j (Nat.min (nxt (tids x)) (csize x (i_sto i)))) as [L|L]; [lia|exfalso].
+    assert (Z : cellv x i j = czero (ck cf)) by (apply (i_mem _ _ I); lia).
+    rewrite Z, (czero_cmp _ Hk) in E. cbn in E. pose proof (m_v4 _ _ _ M c). fold ver in H. lia. }
+  assert (Hcs : forall c', In c' cs -> exists j, c' = cellv x i j).
+  { intros c' H. unfold cs, cells_of in H. apply in_map_iff in H. destruct H as (j & <- & _). exists j. reflexivity. }
+  split.
+  - intros Ep. destruct (fst (cmp_fold (ck cf) ver cs)) eqn:Ef; [|reflexivity]. exfalso.
+    destruct (proj1 FA eq_refl) as [Ef'|(c' & Hc' & Mc')]; [discriminate|].
+    destruct (Hcs c' Hc') as (j & ->). pose proof (m_v1 _ _ _ M c i j Hc Mc') as V. rewrite Ep in V. exact V.
+  - intros Ep. destruct (g_per x c) as [|v0 rest] eqn:Eg; [contradiction|].
+    destruct (m_v2 _ _ _ M c i v0 Hc ltac:(rewrite Eg; left; reflexivity)) as (j0 & P0 & _).
+    assert (Ef : fst (cmp_fold (ck cf) ver cs) = true) by (apply FA; right; exists (cellv x i j0); split; [apply Hin|]; exact P0).
+    rewrite Ef. destruct (FB Ef) as [[F _]|(c' & Hc' & Mc' & Er)]; [discriminate|].
+    exists (snd (cmp_fold (ck cf) ver cs)). split; [|reflexivity]. rewrite Er.
+    destruct (Hcs c' Hc') as (j & ->). split.
+    + rewrite <- Eg. apply (m_v1 _ _ _ M c i j Hc Mc').
+    + intros w Hw. rewrite <- Eg in Hw. destruct (m_v2 _ _ _ M c i w Hc Hw) as (jw & Pw & Qw).
+      eapply cmp_dom_trans; [exact Qw|]. rewrite <- Er. apply FD; [apply Hin|]; exact Pw.
+Qed.
